@@ -33,7 +33,13 @@ CLAIMS = {
     "C14": ("FindAll/Find definitions over C06's VisitPre; vectors through anytree.search and anytree.cachedsearch; judged relative to observed PreOrderIter", "Exhaustive over forests <= 4 (5) nodes, all count bounds, all attribute assignments.", "6/C14"),
     "C15": ("Walk definition + Lem_Walk (simple path, mirror) checked by TLC; all ordered pairs replayed", "Exhaustive over all forests <= 6 (8) nodes and all ordered node pairs.", "6/C15"),
     "C16": ("declarative IdealLog/Observes (NodeOpsProps) checked against the interpreter by TLC (Thm_C16); complete hook logs with in-hook snapshots compared on every transition", "Exhaustive within bounds; hook sequences of refused/aborted children assignments are deliberately unconstrained.", "6/C16"),
+    "C17": ("the specification is the identity-only semantics; conformance of 16 adversarial class families (always-equal, never-equal, falsy, zero-length, unhashable, container-like, ordering, tripwire x both mixins) to the same TLC vectors, in lock-step with the plain class",
+            "Vectors of M1 (all fault plans), M2 (navigation, util, iterators, Walker, search) and M3 (Resolver get/glob); 'all user classes' is represented by the finite family; found and repaired the leftsibling/rightsibling and glob('**') identity defects.", "6/C17"),
     "C18": ("one specification, two implementations: both mixins replayed on the same vectors (mutators with all fault plans, and queries) and compared in lock-step", "Exhaustive within the M1/M2 bounds.", "6/C18"),
+    "C19": ("CloneDef (canonical copy of the closure under parent/children/target) proved to satisfy the label-free predicate IsCopy by TLC (Thm_Clone); every (forest, family, entry node, method) vector replayed with a lock-step correspondence walk; follow-up mutations on both sides; judged by TLC (TraceClone)",
+            "Exhaustive over forests <= 4 (5) nodes x 5 class families (incl. links to the same tree, another tree, another link) x deepcopy and pickle protocols 0-5.", "6/C19"),
+    "C20": ("spec Attrs (Get/Set forwarding, constructor keywords, structural independence) with invariants Forwarding / LinksOwnNothing checked by TLC on all reachable states; every transition replayed on SymlinkNode / SymlinkNodeMixin x Node / AnyNode; judged by TLC (TraceAttrs); plus the M1 vectors on the link families",
+            "Exhaustive over all states reachable with 1 (2) ordinary and 2 link nodes, 3 keys, 2 values; found and repaired the constructor-keyword defect for links to links.", "6/C20"),
 }
 
 ALL = ["C%02d" % i for i in range(1, 21)]
